@@ -8,7 +8,26 @@ CHECKS = {}
 NOT_YET = {}
 
 
+# sentences added after rounds 7 and 8 of seeded changes (appended to the level text of the property)
+ADD = {
+    "C01": " Operand kinds also include bare arrays that contain a zero without being all-zero (the documented exception covers all-zero operands only).",
+    "C02": " Compound expressions carry numeric coefficients also under powers and roots (sqrt(2*km), (10*km**3)**(1/3)).",
+    "C03": " Generated unit expressions carry numeric coefficients also under powers and roots.",
+    "C04": " A deterministic power sweep raises pure-number bases with and without scale (percent, km/m) and dimensional bases to arrays of unequal exponents in 6 spellings: refused, or every element is the SI magnitude raised to its own exponent.",
+    "C05": " One product reached through other associations / orders / from its printed expression must hash equally and be found as a dict key.",
+    "C06": " The catalogue includes explicit dtype= requests in method and function spellings and histogram2d / histogramdd with coordinates in different units sharing one edge array.",
+    "C07": " The catalogue includes histogram2d / histogramdd with the two coordinates in different units of one dimension and shared or per-axis edge arrays in either unit, and explicit dtype= requests (single-precision requests judged under the bit-exact assignments only).",
+    "C09": " The temperature pool includes offset scales (degC, degF, mdegC, kdegC) as input, target and intermediate, judged with the exact affine maps.",
+    "C13": " Unit objects (exported ones, units of another registry) passed to constructors together with registry= (validated and bypass_validation forms) must keep their owner; define_unit into a registry created without default symbols must land there and nowhere else.",
+    "C17": " Deterministic grids: conversion routes between units whose scales are stored as NumPy scalars keep the width for float16/float32/complex64/int16/int32 and agree between copy and in-place; complex data in mixed units (9 unit pairs x 2 widths x 10 forms) against exact complex arithmetic.",
+    "C18": " Both operands tracked with the second written in another commensurable unit: ~50 copying binary forms (non-mutation, independent result memory), 14 in-place forms against their copying twins, 12 store forms (item assignment, fill, put, copyto, putmask, place) against value.to(target unit).",
+    "C19": " Decorators stacked in either order and applied twice; the dimensionless dimension as spec (bare and wrapped pure numbers pass, dimensional values are refused, every slot of returns); NumPy spellings also on pure numbers written with scales (percent, km/m vs dimensionless).",
+    "C20": " Units with a zero point reached through arithmetic that leaves them unchanged (13 forms x every offset-carrying name) must print to text that reads back; every name and its printed forms as UTF-8 bytes / numpy.bytes_; large legal exponents on a fifth of the names (totality).",
+}
+
+
 def chk(pid, category, text, note, technique, ref, thorough=True):
+    text = text + ADD.get(pid, "")
     CHECKS[pid] = dict(
         property_id=pid,
         quick_cmd=f"./check {pid} quick",
